@@ -210,6 +210,8 @@ def classify(e):
     if op == "text":
         return "beacon|extract|%s|%s" % ("overlapping-markers" if e.get("ovl") else "text", e["res"]), \
             "arbitrary text makes beacon extraction panic: %s" % e.get("why")
+    if op == "textfam":
+        return "beacon|extract|%s|panic" % e.get("kind"), "a very short body between valid markers makes beacon extraction panic (%d of %d texts), e.g. %r" % (e["panics"], e["members"], e.get("first_bad"))
     return "beacon|%s|unexplained" % op, "event not explained by the specification"
 
 
@@ -285,6 +287,8 @@ def run(tier, out):
                     distinct.add(("e", e["pw"], tuple(t["k"] for t in e["tokens"])))
                 elif op in ("wrongpw", "text"):
                     distinct.add((op, e["text"]))
+                elif op == "textfam":
+                    distinct.add((op, e["pw"], e["ttl"]))
                 if i in (0, 70000) or (f == "embed" and i in (700, 1500)):
                     samples.append({k: e[k] for k in e if k not in ("why",)})
     sums = {f: r["impl-" + f][0] for f in fams}
